@@ -100,6 +100,54 @@ def generated(rnd, n):
     return out
 
 
+def other_bindings(src):
+    """names that are still DEFINED at module level in the output through another binding form (with / for target, import, walrus): the
+    property asks that a surface name `is still defined under the same name in the output`, not that it is bound by the same kind of statement
+    (missing_context_manager turns `x = open(p) ... x.close()` into `with open(p) as x:`)"""
+    tree = ast.parse(src)
+    out = set()
+
+    def targets(t):
+        if isinstance(t, ast.Name):
+            yield t.id
+        elif isinstance(t, (ast.Tuple, ast.List)):
+            for e in t.elts:
+                yield from targets(e)
+        elif isinstance(t, ast.Starred):
+            yield from targets(t.value)
+
+    def visit(stmts):
+        for st in stmts:
+            if isinstance(st, (ast.With, ast.AsyncWith)):
+                for it in st.items:
+                    if it.optional_vars is not None:
+                        out.update(targets(it.optional_vars))
+                visit(st.body)
+            elif isinstance(st, (ast.For, ast.AsyncFor)):
+                out.update(targets(st.target))
+                visit(st.body)
+                visit(st.orelse)
+            elif isinstance(st, (ast.If, ast.While)):
+                visit(st.body)
+                visit(st.orelse)
+            elif isinstance(st, ast.Try):
+                visit(st.body)
+                visit(st.orelse)
+                visit(st.finalbody)
+                for h in st.handlers:
+                    visit(h.body)
+            elif isinstance(st, (ast.Import, ast.ImportFrom)):
+                out.update((a.asname or a.name).split(".")[0] for a in st.names)
+            elif isinstance(st, (ast.Assign, ast.AnnAssign, ast.AugAssign)):
+                for t in (st.targets if isinstance(st, ast.Assign) else [st.target]):
+                    out.update(targets(t))
+            for n_ in ast.walk(st) if not isinstance(st, (ast.FunctionDef, ast.AsyncFunctionDef, ast.ClassDef)) else []:
+                if isinstance(n_, ast.NamedExpr):
+                    out.update(targets(n_.target))
+    visit(tree.body)
+    return out
+
+
 def work_safe(src):
     import pyrefact
     P.quiet()
@@ -113,7 +161,7 @@ def work_safe(src):
         if r[0] != "ok" or not isinstance(r[1], str):
             continue
         try:
-            after = surface(r[1])
+            after = surface(r[1]) | other_bindings(r[1])
         except SyntaxError:
             continue
         lost = sorted(before - after)
